@@ -56,6 +56,7 @@ class SenderState:
         self.gen_phase = 0
         self.gen_prev = None
         self.version_1rtt = None
+        self.good = {}  # ptype -> Keys that opened a packet of that type
         self.packets = 0
         self.opaque = 0
 
@@ -73,6 +74,7 @@ class WireMonitor(Oracle):
         self.suites_seen = set()
         self.versions_seen = set()
         self.key_phases_seen = set()
+        self.last_dcid = {}
         self.listeners = []
 
     def on_start(self, sim):
@@ -195,8 +197,22 @@ class WireMonitor(Oracle):
                 continue
             self._opened(ep, st, v, pi, keys, header, pn, pn_len, payload)
             return
+        if v.ptype == "initial" and largest != -1:
+            # after an incompatible version negotiation the client restarts its packet numbers
+            for keys in self._candidates(ep, v.ptype, v.version):
+                try:
+                    header, pn, pn_len, payload = wc.unprotect(keys, v.raw, v.pn_offset, -1)
+                except wc.AuthError:
+                    continue
+                st.largest[space] = -1
+                self._opened(ep, st, v, pi, keys, header, pn, pn_len, payload)
+                return
         pi.opaque = True
         pi.why = "no-key"
+        if self.strict_roundtrip and self._candidates(ep, v.ptype, v.version):
+            raise Violation("c02.roundtrip", "undecryptable-%s" % v.ptype,
+                            "%s sent a %s packet (%d bytes) that the independent RFC 9001/9369 implementation cannot "
+                            "open with the keys from its secrets log" % (ep.name, v.ptype, len(v.raw)))
 
     def _open_short(self, ep, st, v, pi):
         largest = st.largest["app"]
@@ -222,13 +238,19 @@ class WireMonitor(Oracle):
             pi.opaque = True
             pi.why = "short-too-short"
             return
+        # the sender may have moved on by more than one generation without sending anything in
+        # between (a peer-initiated update followed by a local one): try generations ahead whose
+        # parity matches the key phase bit
         tries = []
+        g1 = st.gen.next_generation()
         if phase == st.gen_phase:
             tries.append((st.gen, False))
+            tries.append((g1.next_generation(), True))
         else:
-            tries.append((st.gen.next_generation(), True))
+            tries.append((g1, True))
             if st.gen_prev is not None:
                 tries.append((st.gen_prev, False))
+            tries.append((g1.next_generation().next_generation(), True))
         for keys, is_next in tries:
             try:
                 header, pn, pn_len, payload = wc.unprotect(keys, v.raw, v.pn_offset, largest)
@@ -242,6 +264,11 @@ class WireMonitor(Oracle):
             return
         pi.opaque = True
         pi.why = "1rtt-auth(phase=%d)" % phase
+        if self.strict_roundtrip:
+            raise Violation("c02.roundtrip", "undecryptable-1rtt-keyphase",
+                            "%s sent a 1-RTT packet (key phase bit %d, %d bytes) that the independent RFC 9001/9369 "
+                            "implementation cannot open with the current, next or previous key generation (version "
+                            "0x%x)" % (ep.name, phase, len(v.raw), st.gen.version))
 
     def _opened(self, ep, st, v, pi, keys, header, pn, pn_len, payload):
         pi.header = header
@@ -249,6 +276,8 @@ class WireMonitor(Oracle):
         pi.pn_len = pn_len
         pi.payload = payload
         pi.keys = keys
+        st.good[v.ptype] = keys
+        self.last_dcid[ep.name] = v.dcid
         if pn > st.largest[pi.space]:
             st.largest[pi.space] = pn
         self.suites_seen.add(keys.cipher_suite)
